@@ -64,9 +64,9 @@ type mctx struct {
 
 func (m *mctx) send(b []byte) error {
 	if m.c != nil {
-		return m.c.Send(b)
+		return kit.SendBytes(m.c, b)
 	}
-	return m.s.Send(b)
+	return kit.SendBytes(m.s, b)
 }
 
 func (m *mctx) recvCall() ([]byte, error) {
@@ -627,7 +627,7 @@ func SlowPeerHist(depth int) {
 				if recv != nil {
 					recv.Name = "cancelled"
 				}
-				sends = append(sends, kit.Start("Send", func() (interface{}, error) { return nil, s.Send([]byte(r.payload)) }))
+				sends = append(sends, kit.Start("Send", func() (interface{}, error) { return nil, kit.SendBytes(s, []byte(r.payload)) }))
 			}},
 			{Name: "advance:R", Run: func() { kit.Sleep(R) }},
 		}
